@@ -109,6 +109,13 @@ def svd(x, full_matrices=True, compute_uv=True, **kw):
   return u, s, vt
 
 
+def cholesky(x, **kw):
+  """jnp.linalg.cholesky is defined for POSITIVE DEFINITE operands only (NaN otherwise).  Positive definiteness is not
+  something the term language can establish, so any use leaves the run undecided (the native oracle is then consulted)."""
+  from .ctx import Undecided
+  raise Undecided("jnp.linalg.cholesky: positive definiteness of the operand cannot be established (a singular Gram matrix gives NaN)")
+
+
 def qr(x, mode="reduced"):
   x = T.asarray(x)
   m, n = x.shape
@@ -325,6 +332,19 @@ def make_jnp():
   j.less_equal = lambda a, b: T.ew(lambda x, y: x <= y, a, b, cmp=True)
   j.greater_equal = lambda a, b: T.ew(lambda x, y: x >= y, a, b, cmp=True)
   j.floor = lambda x: T.ew(lambda v: v // 1 if not isinstance(v, (int, float)) else float(__import__("math").floor(v)), x)
+  def _broadcast_to(x, shape):
+    x = T.asarray(x)
+    shape = tuple(shape) if isinstance(shape, (list, tuple)) else (shape,)
+    off = len(shape) - len(x.shape)
+    if off < 0:
+      raise Unsupported("broadcast_to a lower rank")
+    for d_, s_ in zip(x.shape, shape[off:]):
+      if not T._is_one(d_):
+        T.shape_compat(d_, s_, "broadcast_to")
+    return Tensor(shape, x.dtype, lambda idx: x.at(tuple(0 if T._is_one(d_) else idx[off + k_] for k_, d_ in enumerate(x.shape))))
+
+  j.broadcast_to = _broadcast_to
+
   def _swapaxes(x, a, b):
     x = T.asarray(x)
     a, b = T._norm_axis(a, x.ndim), T._norm_axis(b, x.ndim)
@@ -343,7 +363,7 @@ def make_jnp():
   j.argsort = _unsupported("jnp.argsort")
   j.sort = _unsupported("jnp.sort")
   j.cumsum = _unsupported("jnp.cumsum")
-  j.linalg = NS(norm=T.norm, eigh=eigh, svd=svd, qr=qr, eigvalsh=lambda x: eigh(x)[0])
+  j.linalg = NS(norm=T.norm, eigh=eigh, svd=svd, qr=qr, cholesky=cholesky, eigvalsh=lambda x: eigh(x)[0])
   return j
 
 
@@ -443,10 +463,13 @@ def lax_cond(pred, true_fun, false_fun, *operands, operand=None, **kw):
   cur().axioms_used.add("lax.cond(p,f,g) = f() if p else g(); both branches are traced")
   operands = T.as_operands(tuple(operands))
   nm = lambda f: getattr(f, "__qualname__", None) or getattr(getattr(f, "func", None), "__qualname__", None) or "<fn>"
+  # every branch is traced with its OWN copy of the operand pytree (fresh containers): an in-place mutation of a dict / list
+  # operand in one branch must not be visible in the other
+  fresh = lambda tr: pytree.tree_map(lambda l: l, tr)
   with T.traced_region("lax.cond:" + str(nm(true_fun))):
-    rt = true_fun(*operands)
+    rt = true_fun(*fresh(operands))
   with T.traced_region("lax.cond:" + str(nm(false_fun))):
-    rf = false_fun(*operands)
+    rf = false_fun(*fresh(operands))
   arr = lambda l: l if isinstance(l, Tensor) or l is None or not isinstance(l, (int, float, bool, sym.Sym)) else T.asarray(l)
   return _select_tree(p, pytree.tree_map(arr, rt), pytree.tree_map(arr, rf), "cond")
 
@@ -477,13 +500,14 @@ def lax_while_loop(cond_fun, body_fun, init_val):
   if lc is None:
     state = init_val
     n = 0
+    fresh = lambda tr: pytree.tree_map(lambda l: l, tr)
     while True:
       with region(state):
-        go = bool(_pred_scalar(cond_fun(state)))
+        go = bool(_pred_scalar(cond_fun(fresh(state))))
       if not go:
         break
       with region(state):
-        state = body_fun(state)
+        state = body_fun(fresh(state))
       n += 1
       if n > WHILE_CAP:
         raise _ctx.EngineError(f"lax.while_loop over {q} needs an invariant")
@@ -495,12 +519,13 @@ def lax_while_loop(cond_fun, body_fun, init_val):
   if c.choose(tag):
     lc.havoc(env, None)
     c.assume(lc.inv(env, None))
+    fresh = lambda tr: pytree.tree_map(lambda l: l, tr)
     with region(env["state"]):
-      go = bool(_pred_scalar(cond_fun(env["state"])))
+      go = bool(_pred_scalar(cond_fun(fresh(env["state"]))))
     if not go:
       raise PathEnd()
     with region(env["state"]):
-      env["state"] = body_fun(env["state"])
+      env["state"] = body_fun(fresh(env["state"]))
     c.oblige(f"{tag}.inv-preserved", lc.inv(env, None), kind="invariant")
     raise PathEnd()
   lc.havoc(env, None)
